@@ -16,6 +16,7 @@
   Only property theorems live here (named C07_float_*).
 -/
 import GilVerif.Lemmas.C07Float
+import GilVerif.Basic.FloatNearest
 
 namespace GilVerif.Props.C07Float
 open GilVerif GilVerif.Lemmas.C07Float
@@ -109,7 +110,23 @@ theorem C07_float_exact_instance (a b x : ℚ) :
     ∧ invF (FloatSpec.exact 1 (le_refl 1)) (invF (FloatSpec.exact 1 (le_refl 1)) x) = x := by
   simp [mulF, invF, FloatSpec.exact]
 
+/-- the genuine binary32 rounding (`FloatSpec.binary32`: round to nearest, ties to even, Basic/FloatNearest.lean)
+    is an instance; the kernel evaluates it and gets what the hardware gives: with a = 1.0f/3.0f = 11184811 * 2^-25,
+    a*a = 7456541 * 2^-26; invert a = 5592405 * 2^-23 (an exact tie, rounded to even); invert (invert a) =
+    2796203 * 2^-23 = a + 2^-25 ≠ a: the involution holds only up to rounding, as `C07_float_invert_involution` states -/
+theorem C07_float_genuine_instance :
+    FloatSpec.binary32.Rep (11184811 / 33554432)
+    ∧ mulF FloatSpec.binary32 (11184811 / 33554432) (11184811 / 33554432) = 7456541 / 67108864
+    ∧ invF FloatSpec.binary32 (11184811 / 33554432) = 5592405 / 8388608
+    ∧ invF FloatSpec.binary32 (invF FloatSpec.binary32 (11184811 / 33554432)) = 2796203 / 8388608 := by
+  refine ⟨?_, ?_, ?_, ?_⟩
+  · unfold FloatSpec.Rep FloatSpec.binary32 FloatSpec.nearest; simp only []; decide +kernel
+  · unfold mulF FloatSpec.binary32 FloatSpec.nearest; simp only []; decide +kernel
+  · unfold invF FloatSpec.binary32 FloatSpec.nearest; simp only []; decide +kernel
+  · unfold invF FloatSpec.binary32 FloatSpec.nearest; simp only []; decide +kernel
+
 /-! ### non-vacuity: the hypotheses are met by a concrete structure and concrete non-trivial values -/
+example : FloatSpec.binary32.IsBinary32 := FloatSpec.binary32_isBinary32
 example : (FloatSpec.exact (2 ^ 24) (by norm_num)).IsBinary32 := FloatSpec.exact_isBinary32
 example : (FloatSpec.exact 1 (le_refl 1)).Rep (1 / 3) := rfl
 example : mulF (FloatSpec.exact 1 (le_refl 1)) (1 / 3) (3 / 4) = 1 / 4 := by
